@@ -155,7 +155,40 @@ def module_unicode():
     return m
 
 
-MODULES = [module_simple, module_calls, module_nested, module_cfg, module_values, module_tracked, module_unicode]
+@native
+def module_attrs():
+    """Module whose operations carry unusual attribute values: a nat parameter without an upper bound (a null in the document), an
+    extension constant with a null payload, a tail loop with a non-empty, unsorted extension delta, a CFG whose branches merge."""
+    m = Module()
+    natp = m.declare_function("nat_poly", tys.PolyFuncType([tys.BoundedNatParam(), tys.BoundedNatParam(7)], tys.FunctionType([B], [B])))
+    f = m.define_function("main", [B, Q])
+    b, q = f.inputs()
+    c = f.call(natp, b, instantiation=tys.FunctionType([B], [B]), type_args=[tys.BoundedNatArg(3), tys.BoundedNatArg(2)])
+    k = f.load(val.Extension("null_payload", tys.Opaque("T0", tys.TypeBound.Copyable, [], "test.ext"), None, ["test.ext"]))
+    f.add_op(cust("use_k", [tys.Opaque("T0", tys.TypeBound.Copyable, [], "test.ext")], []), k)
+    with f.add_tail_loop([c[0]], [q]) as tl:
+        bi, qq = tl.inputs()
+        brk = tl.add_op(ops.Tag(1, tys.Sum([[B], []])), )
+        tl.set_loop_outputs(brk, qq)
+    tl.parent_op.extension_delta = ["zz.ext", "aa.ext"]
+    with f.add_cfg(b, tl[0]) as cfg:
+        with cfg.add_entry() as entry:
+            be, qe = entry.inputs()
+            entry.set_block_outputs(be, qe)
+        with cfg.add_successor(entry[0]) as left:
+            left.set_single_succ_outputs(*left.inputs())
+        with cfg.add_successor(entry[1]) as right:
+            right.set_single_succ_outputs(*right.inputs())
+        cfg.branch_exit(left[0])
+        cfg.branch_exit(right[0])
+    lf = f.load_function(natp, instantiation=tys.FunctionType([B], [B]), type_args=[tys.BoundedNatArg(0), tys.BoundedNatArg(0)])
+    f.add_state_order(c, lf)                                # a state-order edge INTO a load_function node
+    f.add_op(cust("use_fn", [tys.FunctionType([B], [B])], []), lf)
+    f.set_outputs(cfg[0])
+    return m
+
+
+MODULES = [module_simple, module_calls, module_nested, module_cfg, module_values, module_tracked, module_unicode, module_attrs]
 
 
 @native
